@@ -48,7 +48,7 @@ def cases(tier, seed):
                 cs.append({'t': 'foreign', 'key': name, 'usage': usage, 'spec': spec, 'cipher': r.choice([7, 9, 3, 2, 11]), 'halg': r.choice([2, 8, 10, 1]), 'cnt': r.choice([0, 0x10, 0x60])})
         cs.append({'t': 'gnu', 'key': name, 'ext': 1})
         cs.append({'t': 'gnu', 'key': name, 'ext': 2})
-    for h in range(12 if tier == 'quick' else 100):
+    for h in range(12 if tier == 'quick' else 240):
         cs.append({'t': 'history', 'h': h, 'seed': seed, 'key': KEYS[h % len(KEYS)][0], 'sub': KEYS[h % len(KEYS)][1], 'n': 12})
     for name, op in (('ed25519_0', 'sign'), ('rsa1024_0', 'sign'), ('dsa1024_0', 'sign'), ('ecdsa_p256_0', 'sign'), ('cv25519_0', 'decrypt'), ('rsa1024_1', 'decrypt'), ('ecdh_p256_0', 'decrypt')):
         parts = 8
